@@ -11,9 +11,19 @@ func init() {
 		Decides:    "that each specialised opcode the compiler chooses from static types (under IsSubtype(_, Std::Int / Std::Float)) is executed by a handler that reads the operand with the accessors of exactly those representations; otherwise the specialised path reinterprets the operand's bits and disagrees with the generic path.",
 		NotCovered: "equality of results where generic and specialised paths legitimately call different functions; constant folding versus run-time evaluation; statically bound versus dynamically resolved calls.",
 	}
+	props["C10"] = &PropSpec{
+		Rules:      []string{"cover/rebase"},
+		Decides:    "that growing the value stack (the one place where a sizing parameter changes what the VM does) moves every location holding a stack address by exactly new + (p - old), updates every field derived from the stack length, visits the complete open-upvalue list once and leaves native call frames alone. The set of locations is recomputed by taint on every run, so a new cached pointer or size-derived field becomes an obligation automatically.",
+		NotCovered: "equality of program output across configurations in general; the unchecked push headroom (growth is only tested at calls, at 70% occupancy); thread-pool and channel sizing.",
+	}
+	props["C13"] = &PropSpec{
+		Rules:      []string{"path/closeupvalues", "path/continue-closes", "cover/rebase"},
+		Decides:    "that an open upvalue never outlives the stack slot it points at: every VM function that releases or reuses the current frame's slots closes the frame's upvalues first (frame restore, in-place tail call); `continue` lands on the end-of-iteration upvalue closing the compiler emits; stack growth rebases every open upvalue.",
+		NotCovered: "the sorted-list invariant of the open-upvalue list under arbitrary capture orders (captureUpvalue), and which scope a given local is closed with in every loop form.",
+	}
 	props["C29"] = &PropSpec{
-		Rules:      []string{"optable/handled", "optable/width"},
-		Decides:    "that the three places which must agree on the instruction encoding do agree, for every opcode: the VM run loop, the disassembler and every emission site of the compiler (existence of a handler, and the number of operand bytes).",
+		Rules:      []string{"optable/handled", "optable/width", "optable/siteinfo", "cover/offsets"},
+		Decides:    "that the three places which must agree on the instruction encoding do agree, for every opcode: the VM run loop, the disassembler and every emission site of the compiler (existence of a handler, and the number of operand bytes); that a call opcode is always paired with the call-site record type its handler reinterprets; and that the functions rewriting a finished instruction stream move every stored offset.",
 		NotCovered: "operand-stack depth consistency and the numeric values of jump offsets for particular programs (properties of emitted sequences, not of the emitter's shape).",
 	}
 }
